@@ -30,7 +30,7 @@ def gen(rng, tier):
     for i in range(rng.randint(1, 12)):
         side = rng.choice(sides)
         kind = rng.choice(['raw_control', 'raw_control', 'raw_state',
-                           'advance', 'advance'])
+                           'advance', 'advance', 'comp_control', 'comp_state'])
         m = {'id': i, 'side': side, 'kind': kind,
              'gap': rng.choice([0.0, 0.0, 0.0, 0.05, 0.3])}
         if kind == 'advance':
@@ -185,7 +185,8 @@ def run(seed, scenario, trace=None, tier='quick'):
                                           publish=True, push=False, **kw)
                     else:
                         chan = rpc.CONTROL_PUBSUB \
-                            if m['kind'] == 'raw_control' else rpc.STATE_PUBSUB
+                            if m['kind'] in ('raw_control', 'comp_control') \
+                            else rpc.STATE_PUBSUB
                         msg = {'cmd': 'noop_%d' % m['id'], 'arg': None,
                                'mid': m['id']}
                         if m['fwd'] != 'absent':
@@ -198,7 +199,12 @@ def run(seed, scenario, trace=None, tier='quick'):
                             msg['origin'] = others[0] if others else 'x'
                         elif m['origin'] == 'unknown':
                             msg['origin'] = 'pilot.9999'
-                        side.raw[chan].put(chan, msg)
+                        if m['kind'].startswith('comp_'):
+                            # a component relays / publishes the message
+                            # through BaseComponent.publish
+                            side.comp.publish(chan, msg)
+                        else:
+                            side.raw[chan].put(chan, msg)
             sync()
             sim.sleep(4.0)          # any circulating message keeps going
             st['quiet'] = net.idle(queues=False)
@@ -218,7 +224,8 @@ def run(seed, scenario, trace=None, tier='quick'):
                 m = rec['m']
                 src = m['side']
                 chan = rpc.STATE_PUBSUB if m['kind'] in ('advance',
-                                                         'raw_state') \
+                                                         'raw_state',
+                                                         'comp_state') \
                     else rpc.CONTROL_PUBSUB
                 if m['kind'] == 'advance':
                     dflt = (src != 'client')
